@@ -75,6 +75,12 @@ def worker(a):
             out.append("det_coor2 gives pixel %s, the ray from the grain along (2theta, eta) meets the detector at %s (%s)" % (c2.tolist(), want.tolist(), tag))
         lam = 0.4
         Gt = np.array([0.0, 2 * math.pi * f(v[1]) / lam, 2 * math.pi * f(v[2]) / lam])
+        # "for all eta": the same azimuth one turn further, or one turn back, is the same ray
+        for sh_ in (2 * math.pi, -2 * math.pi):
+            cs_ = np.array(detector.det_coor2(tth, eta + sh_, f(L), f(py), f(pz), f(y0), f(z0), Rf, f(pos[0]), f(pos[1]), f(pos[2])), dtype=float)
+            if not np.all(np.isfinite(cs_)) or not (np.abs(cs_ - want).max() <= 1e-8 * scale):
+                out.append("det_coor2 at eta %+.4f (the same azimuth, one turn away) gives %s, expected %s (%s)" % (eta + sh_, cs_.tolist(), want.tolist(), tag))
+                break
         c1_, m1_ = Lg.twice(detector.det_coor, Gt, f(v[0]), lam, f(L), f(py), f(pz), f(y0), f(z0), Rf, f(pos[0]), f(pos[1]), f(pos[2]))
         if m1_:
             out.append(m1_ + " (%s)" % tag)
